@@ -4,6 +4,9 @@ import json, subprocess
 props = [json.loads(l) for l in open('/verif/properties.jsonl')]
 hook_commit = "c96f808"
 CHECKS = {
+ "C01": ("(i) binaries compiled from generated sources in ANM / STD / MSG / END / mission MSG / pre-TH10 ECL + timelines over the real built-in tables of 5-8 games per format (valid metadata, calls with boundary immediates, registers, Shift-JIS strings, time labels incl. negative, gotos, loops, if/else, counted loops, interrupts, difficulty labels, assignments) and (ii) every bundled test binary, x decompile-option subsets x line widths x name-only user mapfiles: decompile -> print -> compile (original as image source for ANM) gives the same bytes unless decompile warned.",
+         "Sources whose own compilation warns (e.g. unused MSG script) are outside the generated domain. Known finding: @blob literals whose length is not a multiple of 4 (TH06 ECL ins_93 under --no-arguments). Embedded images are covered by C17.",
+         "property-based round-trip testing (compile/decompile/compile) over grammar-based file generators + bundled corpus"),
  "C02": ("Generated-input search: random register-language configurations x typed program bodies x 8 register valuations; the emitted raw instructions are executed by an independent register machine (M-machine) and compared with truth's reference interpreter on the flattened source (call log with bit-exact arguments and real times, final time, final registers).",
          "Trusts AstVm as the source-side reference (named by the property) and the harness's own M-machine/M-ops. Programs bounded (<= ~30 statements, depth 3); time labels non-decreasing; NaN/inf and out-of-range float->int casts excluded.",
          "property-based differential testing against an independent machine model (proptest)"),
